@@ -141,6 +141,15 @@ def check_preconditioner(acc, sh, bs, limit, ptype, crank, merge=True):
                            ds.PreconditionerType(ptype), crank)
     shapes = [list(map(int, s)) for s in pc.shapes_for_preconditioners()]
     expo = pc.exponent_for_preconditioner()
+    # the announcement is a query: asking the same object again (as the
+    # sharded init/spec/shape functions do) must give the same answer
+    again = [list(map(int, s)) for s in pc.shapes_for_preconditioners()]
+    if again != shapes or pc.exponent_for_preconditioner() != expo:
+      acc.outcome("viol_precond_query_not_repeatable")
+      acc.violation(sig + "|requery", "asking the same Preconditioner for "
+                    "its shapes a second time gives %s, the first time %s" %
+                    (again, shapes), case)
+      return
     tshape = list(ds.merge_small_dims(sh, limit)) if merge else list(sh)
     ranges = ref_block_ranges(tshape, bs)
     rank = len(tshape)
@@ -343,6 +352,30 @@ def check_reshaper(acc, sh, bs, limit):
   if back.shape != x.shape or not np.array_equal(back, x):
     acc.outcome("viol_reshaper_roundtrip")
     acc.violation(sig + "|roundtrip", "unmerge(merge(x)) != x", case)
+    return
+  # the tensor that is merged is the update; the parameters only give the
+  # shapes.  A float32 update next to bfloat16 parameters must come back
+  # bit for bit (values that bfloat16 cannot hold)
+  try:
+    xf = (x * np.float32(1.0 + 2.0**-12)).astype(np.float32)
+    pb = {"w": jnp.asarray(x).astype(jnp.bfloat16)}
+    uf = {"w": jnp.asarray(xf)}
+    mx2, _ = m.update(uf, m.init(pb), pb)
+    back2, _ = u.update(mx2, u.init(pb), pb)
+    back2 = np.asarray(back2["w"])
+  except Exception as e:  # pylint: disable=broad-except
+    acc.outcome("viol_reshaper_exc")
+    acc.violation(sig + "|exc_mixed", "reshaper raised %s: %s on a float32 "
+                  "update with bfloat16 parameters" %
+                  (type(e).__name__, str(e)[:200]), case)
+    return
+  if back2.dtype != np.float32 or not np.array_equal(back2, xf):
+    acc.outcome("viol_reshaper_roundtrip_mixed_dtype")
+    acc.violation(sig + "|roundtrip_mixed", "unmerge(merge(u)) != u for a "
+                  "float32 update u next to bfloat16 parameters (dtype %s, "
+                  "max |diff| %.3g)" % (back2.dtype, float(np.max(np.abs(
+                      back2.astype(np.float64) - xf))) if back2.shape ==
+                                        xf.shape else -1), case)
     return
   if mx.size < x.size or sorted(mx[mx != 0].tolist()) != sorted(
       x.ravel().tolist()):
